@@ -494,6 +494,26 @@ def skip_icu_gates(ctx, rule_id, title, reason):
         if "SkipIcuCfgGuard" in (f.qual or "") and ".set(" in body_t and ".get(" not in body_t:
             r.inst(f.qual, "sets the flag for the duration of one parse (guard)")
             continue
+        if f.name == "from_name_and_args" and "Formatter" in (f.impl_self or ""):
+            # decided by evaluation, however the gate is spelled: for every formatter name the result with the flag set equals the
+            # result with the family's feature enabled (rules/c18.py evaluates name x feature on / off x flag)
+            try:
+                from rules import c18, absint as _ai
+                from report import Rule as _R
+                tmp = _R(rule_id, "tmp", "tmp", floor=0)
+                c18._r3_names_eval(tmp, ctx, f)
+                if tmp.violations:
+                    for v in tmp.violations:
+                        r.viol("%s:%s" % (rule_id.split(".")[-1], v.key.split(":", 1)[-1]), v.msg, file=v.file, line=v.line)
+                else:
+                    for nm in ("format_currency", "format_nums", "format_datetime", "format_list"):
+                        r.inst("%s#%s" % (f.qual, nm), "evaluated: with the flag set every formatter of this family resolves as if the feature were enabled")
+                    r.inst("%s#unknown" % f.qual, "evaluated: names outside the table are unaffected by the flag")
+                    r.inst("%s#time-date" % f.qual, "evaluated: date / time / datetime each carry the gate")
+                continue
+            except Exception as ex_:  # noqa: BLE001 - fall back to the syntactic normal form below
+                if ex_.__class__.__name__ != "Unknown":
+                    raise
         good = 0
         for n in walk(f.body):
             t = None
